@@ -454,44 +454,43 @@ def operators(ctx, world):
     r = strip_seq(r)
     ok = r.op == "call" and len(r.args) == 1 and r.args[0] is syms["x"] and r.fn.op == "call" and _callee_name(world, DO, r.fn) == "jacobian" and r.fn.args and r.fn.args[0].op == "call" and _callee_name(world, DO, r.fn.args[0]) == "jacobian" and r.fn.args[0].args[0] is syms["fun"]
     _okfail(ctx, "A15", "hessian = jacobian(jacobian(fun))(x)", ok, loc_of(m, node), "hessian is not jacobian(jacobian(fun))(x)", "hessian of a scalar function", construct=f"{DO}.hessian")
-    # ---- checkpoint
-    m, node = world.repo.find_def(DO, "checkpoint")
+    # ---- checkpoint (term level: the registered rule and the returned primitive)
+    from ..tutil import expand as _expand, unseq as _unseq
+
+    r, syms, m, node, sc = ev_op("checkpoint")
     loc = loc_of(m, node)
-    wg = next((s for s in node.body if isinstance(s, ast.FunctionDef)), None)
+    fun = syms[node.args.args[0].arg]
+    rv = _unseq(r) if r is not None else None
+    is_prim = lambda t: t is not None and t.op == "call" and t.fn.op == "ref" and t.fn.ref.qual in ("autograd.tracer.primitive", "autograd.extend.primitive") and len(t.args) == 1 and t.args[0] is fun
+    regs = [t for e in sc.effects for t in walk(e) if is_call_to(t, "autograd.core.defvjp_argnum")]
     ok = False
-    if wg is not None:
-        e = _ret_expr(wg)
-        ps = [a.arg for a in wg.args.args]
-        # make_vjp(fun, argnum)(*args, **kwargs)[0]
-        if isinstance(e, ast.Subscript) and isinstance(e.slice, ast.Constant) and e.slice.value == 0 and isinstance(e.value, ast.Call) and isinstance(e.value.func, ast.Call):
-            inner = e.value.func
-            outer = e.value
-            f = world.repo.resolve_expr(m, inner.func)
-            okf = isinstance(inner.func, ast.Name) and inner.func.id == "make_vjp" and len(inner.args) == 2 and isinstance(inner.args[0], ast.Name) and inner.args[0].id == node.args.args[0].arg and isinstance(inner.args[1], ast.Name) and inner.args[1].id == ps[0]
-            oka = len(outer.args) == 1 and isinstance(outer.args[0], ast.Starred) and isinstance(outer.args[0].value, ast.Name) and outer.args[0].value.id == ps[2] and len(outer.keywords) == 1 and outer.keywords[0].arg is None and isinstance(outer.keywords[0].value, ast.Name) and outer.keywords[0].value.id == ps[3]
-            ok = okf and oka and len(ps) == 4
-    reg = ret = False
-    wname = None
-    for st in node.body:
-        if isinstance(st, ast.Assign) and isinstance(st.value, ast.Call) and isinstance(st.value.func, ast.Name) and st.value.func.id == "primitive" and len(st.value.args) == 1 and isinstance(st.value.args[0], ast.Name) and st.value.args[0].id == node.args.args[0].arg:
-            wname = st.targets[0].id
-        if isinstance(st, ast.Expr) and isinstance(st.value, ast.Call) and isinstance(st.value.func, ast.Name) and st.value.func.id == "defvjp_argnum" and len(st.value.args) == 2:
-            a0, a1 = st.value.args
-            reg = isinstance(a0, ast.Name) and a0.id == wname and isinstance(a1, ast.Name) and wg is not None and a1.id == wg.name
-        if isinstance(st, ast.Return):
-            ret = isinstance(st.value, ast.Name) and st.value.id == wname
+    wiring = False
+    if len(regs) == 1 and len(regs[0].args) == 2:
+        wiring = is_prim(rv) and (regs[0].args[0] is rv or same(regs[0].args[0], rv))
+        clo, pre, prekw = ev.as_closure(regs[0].args[1])
+        if clo is not None and not pre and not prekw:
+            an, ans_s, as_, kws = (T("sym", name=x, role="param") for x in ("argnum", "ans", "args", "kwargs"))
+            body = _unseq(_expand(ev, ev.apply(clo, [an, ans_s, as_, kws], {}, []), {f"{DO}.make_vjp", "autograd.core.make_vjp"}))
+            # make_vjp(fun, argnum)(*args, **kwargs)[0]
+            if body.op == "sub" and body.idx.op == "const" and body.idx.value == 0 and body.obj.op == "call":
+                outer = body.obj
+                inner = outer.fn
+                okf = inner.op == "call" and _callee_name(world, DO, inner) == "make_vjp" and len(inner.args) == 2 and inner.args[0] is fun and inner.args[1] is an and not inner.kw
+                oka = len(outer.args) == 1 and outer.args[0].op == "star" and outer.args[0].x is as_ and not outer.kw and len(outer.dstar) == 1 and outer.dstar[0] is kws
+                ok = bool(okf and oka)
     _okfail(ctx, "A15", "checkpoint: rule = make_vjp(fun, argnum)(*args, **kwargs)[0]", ok, loc, "checkpoint's VJP is not element [0] of make_vjp(fun, argnum)(*args, **kwargs)", "grad of a checkpointed function of two arguments with keyword options", construct=f"{DO}.checkpoint:rule")
-    _okfail(ctx, "A15", "checkpoint: rule registered on, and return of, primitive(fun)", reg and ret and wname is not None, loc, "checkpoint does not register the rule on the primitive it returns", "checkpoint(f) used under grad", construct=f"{DO}.checkpoint:wiring")
+    _okfail(ctx, "A15", "checkpoint: rule registered on, and return of, primitive(fun)", wiring, loc, "checkpoint does not register the rule on the primitive it returns", "checkpoint(f) used under grad", construct=f"{DO}.checkpoint:wiring")
     # ---- grad_named
-    m, node = world.repo.find_def(DO, "grad_named")
+    r, syms, m, node, sc = ev_op("grad_named")
+    rv = _unseq(r) if r is not None else None
+    funp, namep = syms[node.args.args[0].arg], syms[node.args.args[1].arg]
     ok = False
-    for st in node.body:
-        if isinstance(st, ast.Assign) and isinstance(st.value, ast.Call) and isinstance(st.value.func, ast.Attribute) and st.value.func.attr == "index":
-            idxv = st.targets[0].id
-            okr = any(isinstance(s, ast.Return) and isinstance(s.value, ast.Call) and len(s.value.args) == 2 and isinstance(s.value.args[1], ast.Name) and s.value.args[1].id == idxv and isinstance(s.value.args[0], ast.Name) and s.value.args[0].id == node.args.args[0].arg for s in node.body)
-            base = st.value.func.value
-            oks = isinstance(base, ast.Attribute) and base.attr == "args" and isinstance(st.value.args[0], ast.Name) and st.value.args[0].id == node.args.args[1].arg
-            ok = okr and oks
+    if rv is not None and rv.op == "call" and _callee_name(world, DO, rv) == "grad" and len(rv.args) == 2 and rv.args[0] is funp and not rv.kw:
+        ix = rv.args[1]
+        # <signature of fun>.args.index(argname)
+        if ix.op == "call" and ix.fn.op == "attr" and ix.fn.name == "index" and len(ix.args) == 1 and ix.args[0] is namep:
+            base = ix.fn.obj
+            ok = base.op == "attr" and base.name == "args" and base.obj.op == "call" and len(base.obj.args) == 1 and base.obj.args[0] is funp
     _okfail(ctx, "A15", "grad_named: index of the name in fun's own signature", ok, loc_of(m, node), "grad_named does not resolve the name through fun's signature .args.index(argname)", "grad_named(f, 'b')(a, b)", construct=f"{DO}.grad_named")
     # ---- make_vjp / make_jvp exported = unary_to_nary(core versions)
     dm = world.repo.mod(DO)
